@@ -6,7 +6,7 @@ From Coq Require Import ZArith List QArith Qcanon Bool Arith Lia Permutation.
 From SG Require Import Base.QcUtil Base.PolyInt Base.PolyQ Model.Basis Model.BasisPieces
   Proofs.BasisLagrange Proofs.BasisHier Proofs.BasisInterp Proofs.BasisCheck Proofs.BasisTrees
   Proofs.BasisPieces Proofs.BasisRepro Proofs.BasisFlat
-  Model.BasisTree Proofs.BasisTreeP Model.GaussLegendre Proofs.GaussLegendreP Proofs.BasisGaussCol.
+  Model.BasisTree Proofs.BasisTreeP Model.GaussLegendre Proofs.GaussLegendreP Proofs.BasisGaussCol Proofs.BasisGaussCol2 Proofs.BasisTreeEq.
 Import ListNotations.
 Open Scope Qc_scope.
 
@@ -515,4 +515,99 @@ Example C10_gauss_columnwise_nonvacuous :
     /\ map (fun x => nthQ x 1) X = [qd (-1) 1; qd 2 1].
 Proof.
   cbv zeta. eexists. split; [vm_compute; reflexivity|]. split; [vm_compute; reflexivity | apply veq_eq; vm_compute; reflexivity].
+Qed.
+
+
+(* ================================================================== phase 5 *)
+(* ---- (b) the matrix product by columns and the checked solve column by column: the column-wise hypothesis of the flat-sweep
+        theorem is now PROVED for every checked-Gauss system (B-spline / modified bases), so the theorem has no hypothesis on the
+        solvers any more *)
+Theorem C10_matrix_product_by_columns : forall (M : matrix) (X : list (list Qc)) k,
+  (forall r, In r M -> combine r X <> []) -> mapplyV M (colsel k X) = colsel k (mapplyV M X).
+Proof. exact mapplyV_by_columns. Qed.
+Theorem C10_solve_checked_acts_columnwise : forall (M : matrix) (B X : list (list Qc)) len k,
+  (forall r, In r M -> length r = length M) -> (forall b, In b B -> length b = len) -> (k < len)%nat ->
+  solve_checked M B = Some X ->
+  length X = length B /\ (forall x, In x X -> length x = len) /\ solve_checked M (colsel k B) = Some (colsel k X).
+Proof. exact solve_checked_columnwise. Qed.
+Theorem C10_checked_gauss_systems_act_columnwise : forall s, s_ord s = None -> sys_single s \/ sys_colwise_succ s.
+Proof. exact gauss_system_colwise_succ. Qed.
+Theorem C10_hier_flat_follows_hier_nd_all_solvers : forall ss v sur,
+  Forall (fun s => s_n s <> O /\ (s_ord s = None \/ sys_sound s)) ss ->
+  length v = prodN (map s_n ss) ->
+  hier_nd ss v = Some sur -> hier_flat ss v = Some sur.
+Proof. exact hier_flat_follows_hier_nd_all_solvers. Qed.
+(* the model pipeline, every basis family: non-empty dimensions are the only requirement *)
+Theorem C10_pipeline_flat_sweep_unconditional : forall ds v sur,
+  let ss := map (fun d => fst (choose_solver d)) ds in
+  Forall (fun s => s_n s <> O) ss -> length v = prodN (map s_n ss) ->
+  hier_nd ss v = Some sur -> hier_flat ss v = Some sur.
+Proof. exact pipeline_flat_sweep. Qed.
+(* ---- (a), third lemma: the knot list of the level loop - sorting the parent's knots kl ++ kr with the new point appended puts the
+        point between them (pure list fact about sortQ / insert_sorted); level-1 instance *)
+Theorem C10_sorted_parent_knots_plus_point : forall kl x kr,
+  strictly_increasing (kl ++ x :: kr) = true -> sortQ (kl ++ kr ++ [x]) = kl ++ x :: kr.
+Proof. exact sortQ_parent_knots_plus_point. Qed.
+Theorem C10_sortQ_of_sorted_list : forall K, strictly_increasing K = true -> sortQ K = K.
+Proof. exact sortQ_sorted. Qed.
+Print Assumptions C10_matrix_product_by_columns.
+Print Assumptions C10_solve_checked_acts_columnwise.
+Print Assumptions C10_checked_gauss_systems_act_columnwise.
+Print Assumptions C10_hier_flat_follows_hier_nd_all_solvers.
+Print Assumptions C10_pipeline_flat_sweep_unconditional.
+Print Assumptions C10_sorted_parent_knots_plus_point.
+Print Assumptions C10_sortQ_of_sorted_list.
+
+(* non-vacuity (phase 5): a 2-D cubic B-spline grid (regular level 2 x level 1, checked Gauss in both dimensions): the tensor recursion
+   and the flat pole sweep return the same non-trivial surpluses *)
+Example C10_bspline_flat_sweep_nonvacuous :
+  exists sx sy, bspline_system 3 true false 0 1 (regular_points 0 1 2) (regular_levels 2) = Some sx
+    /\ bspline_system 3 true false 0 1 (regular_points 0 1 1) (regular_levels 1) = Some sy /\
+    let ds := [(sx, regular_levels 2, false); (sy, regular_levels 1, false)] in
+    let ss := map (fun d => fst (choose_solver d)) ds in
+    Forall (fun s => s_ord s = None /\ s_n s <> O) ss /\
+    let v := map (fun k => qd (Z.of_nat (k * k) - 7) 4) (seq 0 15) in
+    exists sur, hier_nd ss v = Some sur /\ hier_flat ss v = Some sur /\ sur <> v.
+Proof.
+  eexists. eexists. split; [vm_compute; reflexivity|]. split; [vm_compute; reflexivity|]. cbv zeta.
+  split; [repeat constructor; vm_compute; discriminate|].
+  eexists. split; [vm_compute; reflexivity|]. split; [vm_compute; reflexivity | vm_compute; discriminate].
+Qed.
+
+
+(* ---- (a), first lemma: get_parent on lists of the shape a refinement tree produces around a point x of level lx >= 1
+        ( ... (u, lu), [deeper points], (x, lx), [deeper points], (v, lv) ... with max(lu, lv) = lx - 1 ): the backward scan skips
+        exactly the deeper points of x's own interval and stops at u, the forward scan does the same towards v - get_parent
+        returns the DEEPER interval end, which is the parent the tree recursion uses *)
+Theorem C10_get_parent_returns_the_deeper_interval_end : forall (pre L R post : list (Qc * nat)) u lu x lx v lv,
+  let pl := pre ++ (u, lu) :: L ++ (x, lx) :: R ++ (v, lv) :: post in
+  ~ In x (map fst (pre ++ (u, lu) :: L)) ->
+  (forall e, In e L -> (lx - 1 < snd e)%nat) -> (forall e, In e R -> (lx - 1 < snd e)%nat) ->
+  Nat.max lu lv = (lx - 1)%nat ->
+  get_parent x (map fst pl) (map snd pl) = Some (if (lu =? lx - 1)%nat then u else v).
+Proof. exact get_parent_deeper_end. Qed.
+Theorem C10_parent_scan_skips_deeper_points : forall target A R, (forall e, In e A -> (target < snd e)%nat) ->
+  scan_parent (A ++ R) target = scan_parent R target.
+Proof. exact scan_parent_skip. Qed.
+Print Assumptions C10_get_parent_returns_the_deeper_interval_end.
+Print Assumptions C10_parent_scan_skips_deeper_points.
+
+(* non-vacuity: the tree 0, 1/8(l3), 1/4(l2), 1/2(l1), 3/4(l2), 1: the parent of 1/8 is 1/4 (right end of its interval), of 3/4 is 1/2 *)
+Example C10_get_parent_nonvacuous :
+  let pts := [qd 0 1; qd 1 8; qd 1 4; qd 1 2; qd 3 4; qd 1 1] in let levs := [0; 3; 2; 1; 2; 0]%nat in
+  get_parent (qd 1 8) pts levs = Some (qd 1 4) /\ get_parent (qd 3 4) pts levs = Some (qd 1 2)
+  /\ sortQ ([qd 0 1; qd 1 4; qd 1 2; qd 1 1] ++ [qd 1 8]) = [qd 0 1; qd 1 8; qd 1 4; qd 1 2; qd 1 1].
+Proof.
+  cbv zeta. split; [|split].
+  - apply (get_parent_deeper_end [] [] [] [(qd 1 2, 1%nat); (qd 3 4, 2%nat); (qd 1 1, O)] (qd 0 1) 0 (qd 1 8) 3 (qd 1 4) 2).
+    + cbn. intros [H|[]]. discriminate H.
+    + intros e []. 
+    + intros e [].
+    + reflexivity.
+  - apply (get_parent_deeper_end [(qd 0 1, O); (qd 1 8, 3%nat); (qd 1 4, 2%nat)] [] [] [] (qd 1 2) 1 (qd 3 4) 2 (qd 1 1) 0).
+    + cbn. intros [H|[H|[H|[H|[]]]]]; discriminate H.
+    + intros e [].
+    + intros e [].
+    + reflexivity.
+  - apply (sortQ_parent_knots_plus_point [qd 0 1] (qd 1 8) [qd 1 4; qd 1 2; qd 1 1]). vm_compute. reflexivity.
 Qed.
